@@ -345,6 +345,18 @@ def run_case(ctx, mon, cfg_id, terms, prods, start, kind, inputs_spec=None, rng=
     if not parsers:
         return None
     ctx.count("accepted_grammars")
+    if sum(map(ord, gsig)) % 3 == 0:
+        # somebody prints the parser's description of itself (a read-only report) before the parser is used
+        import contextlib
+        import io
+        for parser in parsers.values():
+            try:
+                with contextlib.redirect_stdout(io.StringIO()):
+                    parser.print_detailed_descr()
+                ctx.count("parsers_described_before_use")
+            except Exception as err:
+                ctx.violation("describing-the-parser-raises", {"type": type(err).__name__, "msg": str(err)[:100]},
+                              base_case)
     if cycle is None and any(alt and alt[0] in nullables for alts in prods.values() for alt in alts):
         ctx.nontrivial(gsig)
     if kind.startswith("right-recursion"):
@@ -405,12 +417,53 @@ logging.getLogger(llparser.__name__).addHandler(logging.NullHandler())
 logging.getLogger(llparser.__name__).propagate = False
 
 
+def shared_helper_case(ctx):
+    """one AnyTokenExcept object (a module-level constant of the caller) serves two grammars with different
+    tokenizers; a terminal name of the first is a non-terminal of the second.  Neither grammar has a cycle."""
+    any_but_semi = llparser.AnyTokenExcept(';')
+    g1 = dict(tok=r"(?P<SPACE>\s+)|(?P<WORD>[a-z]+)|(?P<NUM>[0-9]+)|(?P<SEMI>;)", syn={'SEMI': ';'},
+              prods=lambda: {'E': [('ITEM', 'E'), (';',)], 'ITEM': [any_but_semi]})
+    g2 = dict(tok=r"(?P<SPACE>\s+)|(?P<A>a)|(?P<B>b)|(?P<SEMI>;)", syn={'A': 'a', 'B': 'b', 'SEMI': ';'},
+              prods=lambda: {'E': [('NUM', ';')], 'NUM': [('ITEM', 'b'), ('a',)], 'ITEM': [any_but_semi],
+                             'WORD': [('a', 'NUM')]})
+    for order in ((g1, g2), (g2, g1)):
+        for g in order:
+            ctx.evaluated()
+            case = {"kind": "shared-any-token-except"}
+            try:
+                parser = llparser.LLParser(g['tok'], synonyms=g['syn'], productions=g['prods']())
+            except llparser.GrammarIsRecursive as err:
+                ctx.violation("non-recursive-grammar-rejected", {"family": "shared AnyTokenExcept object",
+                                                                 "msg": str(err)[-150:]}, case)
+                continue
+            except llparser.GrammarError:
+                ctx.count("template_grammar_error(out of domain)")
+                continue
+            except Exception as err:
+                ctx.violation("constructor-raises-other-exception", {"type": type(err).__name__,
+                                                                     "msg": str(err)[:120]}, case)
+                continue
+            ctx.count("accepted_grammars")
+            for text in ("a b ;", "x 1 ;", ";", "a ;", ""):
+                try:
+                    parser.parse(text)
+                except llparser.Error:
+                    pass
+                except Exception as err:
+                    ctx.violation("parse-raises-other-exception", {"text": text, "type": type(err).__name__}, case)
+        any_but_semi = llparser.AnyTokenExcept(';')
+        g1['prods'] = (lambda a=any_but_semi: {'E': [('ITEM', 'E'), (';',)], 'ITEM': [a]})
+        g2['prods'] = (lambda a=any_but_semi: {'E': [('NUM', ';')], 'NUM': [('ITEM', 'b'), ('a',)], 'ITEM': [a],
+                                               'WORD': [('a', 'NUM')]})
+
+
 def run_shard(ctx):
     resource.setrlimit(resource.RLIMIT_AS, (3 << 30, 3 << 30))
     mon = llmon.ParseMonitor()
     orders = set()
     try:
         if ctx.shard == 0:
+            shared_helper_case(ctx)
             for opts in itertools.product((False, True), repeat=7):
                 if opts[5] and not opts[4]:
                     continue    # (a terminal bracket cannot be empty)
@@ -440,6 +493,9 @@ def run_shard(ctx):
 def replay(ctx, case):
     mon = llmon.ParseMonitor()
     try:
+        if case.get("kind") == "shared-any-token-except":
+            shared_helper_case(ctx)
+            return
         if case.get("kind") == "list-template":
             run_list_template_case(ctx, mon, tuple(case["opts"]))
             return
